@@ -125,11 +125,11 @@ func (a *TrivApp) LoadBlockCommit(height uint64) *types.Commit {
 	}
 	return nil
 }
-func (a *TrivApp) LoadSeenCommit(height uint64) *types.Commit        { return a.Seen[height] }
-func (a *TrivApp) GetValidators(height uint64) []*types.Validator    { return a.NextVals[height] }
-func (a *TrivApp) GetRecoverValidators(uint64) []*types.Validator    { return a.Vals }
-func (a *TrivApp) SetLastChangedVals(uint64, []*types.Validator)     {}
-func (a *TrivApp) PreRunBlock(block *types.Block)                    {}
+func (a *TrivApp) LoadSeenCommit(height uint64) *types.Commit     { return a.Seen[height] }
+func (a *TrivApp) GetValidators(height uint64) []*types.Validator { return a.NextVals[height] }
+func (a *TrivApp) GetRecoverValidators(uint64) []*types.Validator { return a.Vals }
+func (a *TrivApp) SetLastChangedVals(uint64, []*types.Validator)  {}
+func (a *TrivApp) PreRunBlock(block *types.Block)                 {}
 func (a *TrivApp) parentHash(height uint64) common.Hash {
 	if b := a.Blocks[height-1]; b != nil {
 		return b.Hash()
